@@ -4,6 +4,7 @@ import (
 	"fmt"
 	"go/constant"
 	"go/types"
+	"os"
 	"strings"
 
 	"golang.org/x/tools/go/ssa"
@@ -135,6 +136,12 @@ func (g *Gen) call(fr *Frame, st *State, site ssa.Instruction, c *ssa.CallCommon
 		fc.Used = true
 		penv := g.bindParams(fr, st, fc, key, fn, sig, args, c.IsInvoke())
 		g.callSiteClauses(fr, st, site, c, key, ord, args, penv, sig, fn, r)
+		var calleeWS *writeSet
+		if fn != nil && len(fn.Blocks) > 0 && g.isRepoPkg(pkgOfFn(fn)) && !fc.Assumed {
+			// frame of a verified callee: what its body (and everything it calls) can write, found by a dry run
+			calleeWS = g.dryCallee(fr, st, fn, clo, c, args, key)
+		}
+		g.pendingCalleeWS = calleeWS
 		res := g.applyContract(fr, st, site, fc, key, ord, penv, resT, args, r)
 		g.callBinds(fr, st, site, c, key, penv, res)
 		if (fc.Assumed && (fn == nil || !g.isRepoPkg(pkgOfFn(fn)))) || (fn != nil && g.otherPackage(fr, fn)) {
@@ -374,6 +381,18 @@ func (g *Gen) havocCaptured(st *State, clo *Closure) {
 				continue
 			}
 		}
+		if cur.Ty != nil && !assigns[bi] && cur.S == "Slice" {
+			if sl, ok := types.Unalias(cur.Ty).Underlying().(*types.Slice); ok {
+				// the closure only stores into elements: the slice keeps its identity, its backing array's contents change
+				srt := g.sortOf(sl.Elem())
+				name := "HA$" + srt
+				hs := "(Array Int (Array Int " + srt + "))"
+				h := g.heapTerm(st, name, hs)
+				arr := fmt.Sprintf("(sarr %s)", cur.T)
+				g.setHeap(st, name, hs, fmt.Sprintf("(store %s %s %s)", h, arr, g.vc.freshConst("hva", "(Array Int "+srt+")")), arr)
+				continue
+			}
+		}
 		g.setCell(st, b.Ptr.Cell, Val{T: g.vc.freshConst("esc", cur.S), S: cur.S, Ty: cur.Ty})
 	}
 }
@@ -600,6 +619,10 @@ func (g *Gen) applyContract(fr *Frame, st *State, site ssa.Instruction, fc *Func
 		}
 	}
 	// havoc
+	if ws := g.pendingCalleeWS; ws != nil {
+		g.pendingCalleeWS = nil
+		g.havocWriteSet(fr, st, ws)
+	}
 	if fc.Escapes {
 		if ci, ok := site.(ssa.CallInstruction); ok {
 			g.escapeArgs(fr, st, ci.Common())
@@ -640,6 +663,8 @@ func (g *Gen) applyContract(fr *Frame, st *State, site ssa.Instruction, fc *Func
 	penv.vars = rvars
 	penv.old = pre
 	penv.st = st
+	g.assumingFresh = fc.Assumed
+	defer func() { g.assumingFresh = false }()
 	for _, en := range append(append([]*Clause{}, fc.Ensures...), fc.Defines...) {
 		v, err := g.evalBool(en.Expr, &penv)
 		if err != nil {
@@ -1241,5 +1266,104 @@ func (g *Gen) invokeStar(fr *Frame, st *State, site ssa.Instruction, key string,
 			g.addObligation(&Obligation{Name: fmt.Sprintf("%s.call[%s#%d].invariant.cover.reachable", fr.topKey(), key, g.siteOrd(invs[0], site)), Func: fr.topKey(), Kind: "cover",
 				Guard: guard, Goal: "false", Expect: "sat", Src: "vacuity guard: the invoked closure runs under the invariants", Pos: g.posOf(site)})
 		}
+	}
+}
+
+// dryCallee runs the body of a contracted in-module callee once, discarding everything but its write set: the heaps,
+// ghost variables, globals and escaped cells that it (or anything it calls) may modify. The caller's knowledge about
+// those locations is dropped at the call; what the caller may assume afterwards is the callee's ensures.
+func (g *Gen) dryCallee(fr *Frame, st *State, fn *ssa.Function, clo *Closure, c *ssa.CallCommon, args []Val, key string) *writeSet {
+	if fr.onStack(fn) {
+		g.vc.note("unmodelled", "frame of the recursive call to "+key+" is its explicit modifies list only")
+		return nil
+	}
+	saveLines, saveObls, saveNotes := len(g.vc.lines), len(g.vc.obls), len(g.vc.notes)
+	saveClock := g.vc.clock
+	saveWS := g.ws
+	ws := &writeSet{heaps: map[string]bool{}, cells: map[string]bool{}, bases: map[string]map[string]bool{}, all: map[string]bool{}, start: g.vc.fresh, allocSet: g.vc.allocSet}
+	g.ws = ws
+	g.dry++
+	cf := g.newFrame(fn, fr)
+	if clo != nil {
+		cf.free = clo.Bindings
+	} else if len(fn.FreeVars) > 0 {
+		if v := fr.val(c.Value); v.Clo != nil {
+			cf.free = v.Clo.Bindings
+		}
+	}
+	stIn := st.Clone()
+	for i, p := range fn.Params {
+		if i < len(args) {
+			a := args[i]
+			a.Ty = p.Type()
+			cf.vals[p] = a
+			cf.params[p.Name()] = a
+			if p.Object() != nil {
+				stIn.src[p.Object()] = a
+				stIn.srcAddr[p.Object()] = false
+			}
+		}
+	}
+	_, stOut, _ := g.execFunc(cf, stIn, "true")
+	g.dry--
+	g.ws = saveWS
+	g.vc.clock = saveClock
+	g.vc.lines = g.vc.lines[:saveLines]
+	g.vc.obls = g.vc.obls[:saveObls]
+	g.vc.notes = g.vc.notes[:saveNotes]
+	if os.Getenv("GOVC_DEBUG_WS") != "" {
+		var hs []string
+		for _, k := range sortedKeysB(ws.heaps) {
+			if ws.all[k] {
+				hs = append(hs, k+"[*]")
+			} else {
+				hs = append(hs, fmt.Sprintf("%s%v", k, sortedKeysB(ws.bases[k])))
+			}
+		}
+		fmt.Fprintf(os.Stderr, "write set of %s called from %s (dry=%d): heaps %v cells %v\n", key, fr.topKey(), g.dry, hs, sortedKeysB(ws.cells))
+	}
+	// sorts/types of cells first touched inside the callee (ghost variables, globals)
+	ws.cellVals = map[string]Val{}
+	for k := range ws.cells {
+		if v, ok := stOut.cells[k]; ok {
+			ws.cellVals[k] = v
+		} else if v, ok := stIn.cells[k]; ok {
+			ws.cellVals[k] = v
+		}
+	}
+	return ws
+}
+
+// havocWriteSet forgets what is known about the locations in ws (a callee's write set).
+func (g *Gen) havocWriteSet(fr *Frame, st *State, ws *writeSet) {
+	for _, k := range sortedKeysB(ws.heaps) {
+		srt := st.hsort[k]
+		if srt == "" {
+			continue
+		}
+		if ws.all[k] || !strings.HasPrefix(srt, "(Array Int ") {
+			g.setHeap(st, k, srt, g.vc.freshConst("Hc$"+k, srt), "")
+			continue
+		}
+		elem := strings.TrimSuffix(strings.TrimPrefix(srt, "(Array Int "), ")")
+		for _, b := range sortedKeysB(ws.bases[k]) {
+			cur := g.heapTerm(st, k, srt)
+			ne := g.vc.freshConst("Hce$"+k, elem)
+			g.setHeap(st, k, srt, fmt.Sprintf("(store %s %s %s)", cur, b, ne), b)
+		}
+	}
+	for _, k := range sortedKeysB(ws.cells) {
+		old, ok := st.cells[k]
+		if !ok {
+			if !(strings.HasPrefix(k, "ghost$") || strings.HasPrefix(k, "G$")) {
+				continue // a cell private to the callee's frame
+			}
+			old, ok = ws.cellVals[k]
+			if !ok {
+				continue
+			}
+		}
+		nv := Val{T: g.vc.freshConst("cc$"+k, old.S), S: old.S, Ty: old.Ty}
+		g.setCell(st, k, nv)
 	}
 }
